@@ -341,6 +341,7 @@ pub fn run(args: &Args, rep: &mut Report) {
     }
     let mut reported: std::collections::BTreeSet<String> = Default::default();
     for (label, ops) in todo {
+        mark_current(&case_lines(&ops));
         drv.begin_case();
         let res = eval_case(&ops, Some(&mut drv), &pool);
         let kf1 = Op::has_tl_in_batch(&ops, false);
